@@ -4,6 +4,10 @@ from ..engines import varkind as V
 
 
 def run(ctx):
+    # language-level slips in the modules the property is anchored in (engine Y)
+    from ..engines import gotchas as GY
+    GY.run(ctx, ('strategies.rule', 'strategies.constructor.cartesian', 'strategies.constructor.disjoint', 'strategies.constructor.base', 'utils'))
+    ctx.floor("Y", 1)
     ctx.extra["explanation"] = (
         "static analysis (ast, no execution) of the statistic-name plumbing of the four constructors and "
         "of the constructors derived in rule.py: tables are paired with their own child, inverted into a "
